@@ -189,6 +189,9 @@ def judge(case):
                          "process)" % (type(e).__name__, e)], "tags": ["sequential-construction-failed"]}
     fns = _build_ops(case, shared_evs, E)
     s = sched.Scheduler(fns, [tuple(x) for x in case["schedule"]], cycle=case.get("cycle", True))
+    from .. import common as _common
+
+    state0 = _common.global_state()
     try:
         results = s.run()
     except sched.Stuck as e:
@@ -197,6 +200,14 @@ def judge(case):
         viol = _judge_results(case, results, shared_evs, "owned schedule")
     except Exception as e:
         viol = ["probing the evaluators after the run raised %s: %s" % (type(e).__name__, e)]
+    # whatever the threads did, they leave the interpreter as they found it (warning filters, limits, logging, open files ...)
+    changed = [c for c in _common.state_diff(state0, _common.global_state()) if not c.startswith("non-daemon threads")]
+    if changed and not viol:
+        viol = ["owned schedule: the concurrent run changed interpreter-wide state: %s" % "; ".join(changed)]
+        _common.restore_state(state0)
+        import warnings
+
+        warnings.resetwarnings()
     if viol:
         from .. import common
 
